@@ -381,6 +381,10 @@ def handleSrvFlush (st : SrvSt) (ni : Server.NiSel) (el : Server.FlushElec) (cod
       { st with rs := rs, flushedNIs := some nis }
     | _, _ =>
       let st := if code = "0" then st.monfail "c08" "a flush that must be rejected was answered OK" else st
+      -- (an unauthorised flush that goes through changes the RIB on behalf of a request the
+      -- election gate had to stop: C04's concern as well, when the election is what it fails)
+      let st := if code = "0" && target.isSome && verdict.isSome
+        then st.monfail "c04" "a Flush that the election gate had to reject (stale or missing id) was answered OK" else st
       -- C12 monitor: a Flush naming no instance, the empty name or an unknown instance is malformed
       let st := if code = "0" && target.isNone
         then st.monfail "c12" "a malformed Flush request (no, empty or unknown network instance) was answered OK" else st
